@@ -73,7 +73,7 @@ func clBarrierLockset(c *Ctx) {
 				continue
 			}
 			n++
-			c.Check(w.fn == doCleanup, w.fn, w.in, cnt.in(w.fn, "write of "+fv.Name()+" only by the cleanup"), "the free sequence is advanced outside the single running cleanup")
+			c.Check(p.sameRoot(w.fn, doCleanup), w.fn, w.in, cnt.in(w.fn, "write of "+fv.Name()+" only by the cleanup"), "the free sequence is advanced outside the single running cleanup")
 		}
 	}
 	for _, s := range p.AllCallSites(doCleanup) {
@@ -189,7 +189,7 @@ func clTerminateOnce(c *Ctx) {
 		return
 	}
 	n, isC := constInt(dec.Call.Args[1])
-	c.Check(isC && n == -1 && strip(sessionOf(dec)) == ssa.Value(rel.Params[1]), rel, dec, "Release subtracts exactly one from the session it was given", "")
+	c.Check(isC && n == -1 && strip(sessionOf(dec)) == strip(rel.Params[1]), rel, dec, "Release subtracts exactly one from the session it was given", "")
 	for _, in := range p.CallSites(rel, slInsert) {
 		if lastField(callOf(in).Args[0]) != fFreeq {
 			continue
@@ -198,7 +198,7 @@ func clTerminateOnce(c *Ctx) {
 			"termination is decided on something else than the decrement's own result == barrierFlushOffset: a session can be destructed while accessors are inside, or by two releasers")
 		c.Check(rfi.guardedByCmp(in, token.EQL, isValue(closedAdd), isConstInt(1)), rel, in, "only the first claimant (closed counter == 1) queues the session",
 			"accessors that entered a closed session and stepped back can bring the count to the offset again: without the closed counter the session is queued twice")
-		c.Check(strip(callOf(in).Args[1]) == ssa.Value(rel.Params[1]), rel, in, "the session queued is the one released", "")
+		c.Check(strip(callOf(in).Args[1]) == strip(rel.Params[1]), rel, in, "the session queued is the one released", "")
 	}
 	// Acquire
 	afi := p.Info(acq)
@@ -291,7 +291,7 @@ func clCleanupOrder(c *Ctx) {
 	adv := 0
 	var advIn ssa.Instruction
 	for _, w := range p.fieldWrites(fFreeSeq) {
-		if w.fn == fn {
+		if p.sameRoot(w.fn, fn) {
 			adv++
 			advIn = w.in
 		}
